@@ -591,14 +591,18 @@ func (r *runner) step(i int, st Step) {
 		r.settle()
 		r.world.ProcRelease(st.Proc, st.Tag)
 	case "Stop":
-		r.settle()
+		if st.N == 0 { // N = 1: issue the stop at once, racing whatever the engine is doing
+			r.settle()
+		}
 		name := "Stop"
 		if st.Force {
 			name = "ForceStop"
 		}
 		r.async(name, func() error { return e.LC.Stop(r.ctx, PipelineID, st.Force) })
 	case "StopAndWait":
-		r.settle()
+		if st.N == 0 {
+			r.settle()
+		}
 		r.async("StopAndWait", func() error { return e.LC.StopAndWait(r.ctx, PipelineID) })
 	case "StopAll":
 		r.settle()
